@@ -1493,8 +1493,9 @@ impl PayloadContent {
             PayloadContent::NetworkTrace(slices) => {
                 for slice in slices {
                     // type-info (rawd)
-                    const TYPE_INFO_BYTES: &[u8] = &[0x00, 0x04, 0x00, 0x00];
-                    buf.extend_from_slice(TYPE_INFO_BYTES);
+                    let mut type_info_bytes = [0; 4];
+                    T::write_u32(&mut type_info_bytes, TYPE_INFO_RAW_FLAG);
+                    buf.extend_from_slice(&type_info_bytes);
 
                     // len (16bit)
                     let mut tmp_buf = [0; 2];
